@@ -751,17 +751,25 @@ impl<'a, 'b> TreeGen<'a, 'b> {
             // No more patterns to match on so we grab the first default row and return that
             let mut fallback = matrix.rows;
 
-            let row = fallback.swap_remove(0);
+            let mut row = fallback.swap_remove(0);
 
             let Some((assigns, _)) = then_map.get_mut(&row.then) else {
                 unreachable!()
             };
 
-            // This is just to prevent repeated assigning clones for the same fallback
-            // used in multiple places
-            // So we could just overwrite it everytime too.
+            // The same clause can be reached from multiple places. Its hoisted function is
+            // declared once, with its parameters in the order of the first set of assigns
+            // seen. Yet, assigns are collected in the order patterns got tested down this
+            // path of the tree, which may differ from a path to another. So every other
+            // leaf must stick to the order of the first one.
             if assigns.is_empty() {
                 *assigns = row.assigns.clone();
+            } else {
+                row.assigns.sort_by_key(|assign| {
+                    assigns
+                        .iter()
+                        .position(|declared| declared.assigned == assign.assigned)
+                });
             }
 
             return DecisionTree::HoistedLeaf(row.then, row.assigns);
